@@ -429,6 +429,7 @@ class BaseParser:
     ):
         addition = {}
         result = {}
+        raw_values = {}
         dependencies = set()
         unprovided_fields = set()
         options = context.options
@@ -454,7 +455,8 @@ class BaseParser:
 
             if not options.ignore_alias_conflicts:
                 if name in result:  # or (excluded_keys and name in excluded_keys):
-                    if result[name] != value:
+                    # compare the given values (as field_first_parse does), not a parsed value with a raw one
+                    if raw_values.get(name, result[name]) != value:
                         context.handle_error(exc.AliasConflictError(item=name, value=value))
                     continue
 
@@ -466,6 +468,7 @@ class BaseParser:
                 continue
 
             result[name] = parsed
+            raw_values[name] = value
 
             if field.dependencies:
                 dependencies.update(
